@@ -509,11 +509,11 @@ PLANS = {
     "C06": [M(["general", "deathrace", "killstorm"], 9, 70), S(["kill", "backpressure", "lifecycle"], 18000, 150000, mode="diff"), S(["kill", "refs"], 12000, 60000, build="none", seed_off=1000)],
     "C07": [M(["dropspin", "notime", "nest"], 7, 40, seed_off=8), S(["refs", "idle", "lifecycle"], 18000, 150000, mode="diff"), S(["refs", "idle"], 9000, 60000, build="none", seed_off=1000)],
     "C08": [S(["idle", "kill", "traffic"], 18000, 150000), S(["idle", "kill"], 9000, 60000, build="none", seed_off=1000)],
-    "C09": [M(["blocking", "lastslot"], 9, 50, seed_off=17), P("default"), P("set", 5, reps=(25, 150)), P("set", 1, reps=(25, 150)), P("set", 2, reps=(25, 150)), P("set", 7, reps=(25, 150)), P("set", 11, reps=(25, 150)), P("set", 13, reps=(25, 150)), P("set", 17, reps=(25, 150)), P("set", 19, reps=(25, 150)), P("set", 23, reps=(25, 150)), P("set", 29, reps=(25, 150)), P("spawn-then-set", 3), P("set-cross", 3), P("set-cross", 40), P("set-seq", 32, m=4), P("set-seq", 32, m=32), P("set-seq", 6, m=6), P("set-seq", 6, m=32), P("set-seq", 1, m=64), P("zero"), S(["backpressure", "traffic"], 24000, 200000), S(["backpressure"], 12000, 80000, build="none", seed_off=1000)],
+    "C09": [M(["blocking", "lastslot"], 9, 50, seed_off=17), P("default"), P("set", 5, reps=(25, 150)), P("set", 1, reps=(25, 150)), P("set", 2, reps=(25, 150)), P("set", 7, reps=(25, 150)), P("set", 11, reps=(25, 150)), P("set", 13, reps=(25, 150)), P("set", 17, reps=(25, 150)), P("set", 19, reps=(25, 150)), P("set", 23, reps=(25, 150)), P("set", 29, reps=(25, 150)), P("spawn-then-set", 3), P("set-cross", 3), P("set-cross", 40), P("set-seq", 32, m=4), P("set-seq", 32, m=32), P("set-seq", 6, m=6), P("set-seq", 6, m=32), P("set-seq", 1, m=64), P("set-seq", 70001, m=5), P("zero"), S(["backpressure", "traffic"], 24000, 200000), S(["backpressure"], 12000, 80000, build="none", seed_off=1000)],
     "C10": [LAWS, M(["blocking"], 8, 60), M(["starve"], 3, 30, seed_off=3), M(["hogged", "lastslot", "hookblocking", "blockpair", "poolfull"], 15, 80, seed_off=13), S(["timeouts", "kill"], 24000, 200000, mode="diff"), S(["timeouts"], 12000, 80000, build="none", seed_off=1000)],
     "C11": [MIRI, M(["spawnstorm", "abort"], 7, 60), M(["readers", "nest"], 6, 50, seed_off=9), S(["refs", "lifecycle", "traffic"], 18000, 150000, mode="diff"), S(["refs", "kill"], 9000, 60000, build="none", seed_off=1000)],
     "C12": [MIRI, S(["faults"], 30000, 250000), S(["deadlock"], 15000, 100000), S(["faults"], 12000, 80000, build="none", seed_off=1000)],
-    "C13": [MIRI, M(["general", "blocking", "deathrace"], 9, 90), M(["reentrant", "dropsend", "nest"], 6, 30, seed_off=21), S(["traffic", "timeouts", "kill", "faults", "lifecycle"], 12000, 100000, mode="diff"), S(["timeouts", "kill"], 9000, 60000, build="none", seed_off=1000)],
+    "C13": [MIRI, M(["general", "blocking", "deathrace"], 9, 90), M(["reentrant", "dropsend", "nest", "hookblocking"], 8, 40, seed_off=21), S(["traffic", "timeouts", "kill", "faults", "lifecycle"], 12000, 100000, mode="diff"), S(["timeouts", "kill"], 9000, 60000, build="none", seed_off=1000)],
     "C14": [M(["mutualask"], 4, 40), S(["deadlock"], 48000, 400000, perts=(2, 4)), S(["deadlock"], 12000, 100000, mode="erased", seed_off=300)],
     "C15": [MIRI, M(["dlrace", "nest"], 8, 50, seed_off=31), S(["deadlock"], 48000, 400000, perts=(2, 4), seed_off=500), S(["deadlock"], 12000, 100000, mode="erased", seed_off=800), S(["traffic", "faults"], 9000, 60000)],
     "C16": [M(["blocking", "notime"], 7, 40), S(["traffic", "refs", "timeouts", "kill", "lifecycle", "backpressure", "idle", "faults"], 7500, 60000, mode="diff"), S(["deadlock"], 6000, 40000, mode="diff", seed_off=700), S(["refs", "traffic", "kill"], 6000, 40000, mode="diff", build="none", seed_off=1000)],
